@@ -5,6 +5,7 @@ _custom_data) and of its certifier; to_dict writes them out and _init_with_map r
 each element class are stated over the same fields, so the round trip is their composition:
    init(to_dict(e)).f == unhex(to_dict(e)[f]) == e.f      for every field f the verdict depends on."""
 from .common import *
+from pyvc.values import is_sym, Unsupported
 from spec.crypto_ext import same_p256_key
 import spec.cstruct  # noqa: registers the CStruct model
 
@@ -80,3 +81,115 @@ class QuoteInit(Contract):
                 and self._signature == unhex(jstr(element_map["signature"])))
     ensures = [reads_back_what_was_written]
     raises = {"Exception": Exc()}
+
+
+# ------------------------------------------------------------------------------------------ C07: the element predicates
+from spec.crypto_ext import CERTIFIER, certifier_signed, is_p256_point, p256_raw, is_key_of      # noqa: E402
+from spec.hash_ext import sha256                                                       # noqa: E402
+
+# Oracle for "its report data": the Intel SGX structure layouts (sgx_report_body_t is 384 bytes with report_data at
+# offset 320; sgx_quote_t is a 48-byte header followed by the report body, 432 bytes in all) - constants taken from the
+# SGX SDK headers, NOT read from the repository's struct definitions, so that an edit of those definitions is noticed.
+REPORT_BODY_SIZE, REPORT_DATA_IN_BODY = 384, 320
+QUOTE_SIZE, REPORT_DATA_IN_QUOTE = 432, 48 + 320
+
+
+@contract("admin/certificate_v2.py", "HSMCertificateV2ElementSGXQuote.is_valid", serves=["C07"])
+class QuoteIsValid(Contract):
+    """"the quote is signed by that attestation key and its report data begins with SHA-256(custom data)" """
+    self_spec = QUOTE
+    params = dict(certifier=CERTIFIER)
+    result = BOOL_
+    pure = True
+    assumptions = ["A-CRYPTO(P-256): ecdsa verify_digest as an uninterpreted predicate (returns True or raises)", "A-HASH", "A-CSTRUCT"]
+
+    def exactly_the_two_conditions(self, certifier, result):
+        off = REPORT_DATA_IN_QUOTE
+        return result == (len(self._message) >= QUOTE_SIZE and self._message[off:off + 32] == sha256(self._custom_data)
+                          and certifier_signed(certifier, self._signature, sha256(self._message)))
+    ensures = [exactly_the_two_conditions]
+
+
+@contract("admin/certificate_v2.py", "HSMCertificateV2ElementSGXAttestationKey.is_valid", serves=["C07"])
+class AttestationKeyIsValid(Contract):
+    """"the attestation-key element's report body is signed by its certifier's P-256 key and its report data begins with
+    SHA-256(key || auth data)" """
+    self_spec = AKEY
+    params = dict(certifier=CERTIFIER)
+    result = BOOL_
+    pure = True
+    assumptions = ["A-CRYPTO(P-256)", "A-HASH", "A-CSTRUCT"]
+
+    def exactly_the_two_conditions(self, certifier, result):
+        off = REPORT_DATA_IN_BODY
+        return result == (is_p256_point(self._key) and len(self._message) >= REPORT_BODY_SIZE
+                          and self._message[off:off + 32] == sha256(p256_raw(self._key) + self._auth_data)
+                          and certifier_signed(certifier, self._signature, sha256(self._message)))
+    ensures = [exactly_the_two_conditions]
+
+
+@contract("admin/certificate_v2.py", "HSMCertificateV2ElementSGXAttestationKey.get_pubkey", serves=["C07"])
+class AttestationKeyGetPubkey(Contract):
+    """the key an attestation-key element certifies with is the key it carries (or none, if that is not a P-256 point)"""
+    self_spec = AKEY
+    params = {}
+    pure = True
+    exception_serves = ()
+
+    def is_the_carried_key(self, result): return is_key_of(result, self._key)
+    ensures = [is_the_carried_key]
+    raises = {"Exception": Exc()}
+
+
+# ---- x509 element
+from spec.x509_ext import pem_of, cert_loads, within_validity, issued_by      # noqa: E402
+
+X509 = OBJ("admin.certificate_v2:HSMCertificateV2ElementX509", _name=JSON_, _signed_by=JSON_, _message=BYTES_, _certificate=NONE_)
+
+
+@contract("admin/certificate_v2.py", "HSMCertificateV2ElementX509.is_valid", serves=["C07"])
+class X509IsValid(Contract):
+    """"every X.509 element is inside its validity period and is signed by the key of the certificate that certifies it";
+    only another X.509 element can certify one"""
+    self_spec = X509
+    params = dict(certifier=ONEOF(X509, AKEY))
+    result = BOOL_
+    modifies_self = dict(_certificate=OPAQUE("x509cert-cache"))
+    assumptions = ["A-X509: cryptography's load_pem_x509_certificate / validity attributes / public_key().verify and datetime.now as "
+                   "assumed contracts (spec/x509_ext.py)"]
+
+    def validity_window_and_issuer_signature(self, certifier, result, g):
+        if is_instance(certifier, X509CLS):
+            return result == (cert_loads(pem_of(self._message)) and cert_loads(pem_of(certifier._message))
+                              and within_validity(pem_of(self._message), g.clock_now)
+                              and issued_by(pem_of(certifier._message), pem_of(self._message)))
+        return result == False          # noqa: E712
+    ensures = [validity_window_and_issuer_signature]
+
+
+X509CLS = REPO("admin.certificate_v2:HSMCertificateV2ElementX509")
+
+
+@contract("admin/certificate_v2.py", "HSMCertificateV2ElementSGXQuote.get_value", serves=["C07"])
+class QuoteGetValue(Contract):
+    """"When valid, the reported custom message and quote fields are exactly the signed ones": the value handed to the
+    verify command is the custom data is_valid bound to the report data, and the quote structure over the signed bytes"""
+    self_spec = QUOTE
+    params = {}
+    pure = True
+    exception_serves = ()
+
+    def reports_the_signed_custom_data(self, result): return result["message"] == hexs(self._custom_data)
+    def reports_the_signed_quote(self, result): return struct_over(result["sgx_quote"], self._message, 0)
+    ensures = [reports_the_signed_custom_data, reports_the_signed_quote]
+    raises = {"ValueError": Exc()}       # a message shorter than the quote structure cannot be parsed
+
+
+@native
+def struct_over(ip, st, s, data, offset):
+    """s is a CStruct view (spec/cstruct.py) of exactly `data` at `offset`"""
+    from pyvc.values import Opaque
+    if not (isinstance(s, Opaque) and s.tag == "cstruct"):
+        return False
+    a = s.attrs
+    return a["offset"] == offset and (a["value"] is data or (is_sym(a["value"]) and is_sym(data) and a["value"].term is data.term))
